@@ -768,7 +768,11 @@ func translateWith(fset *token.FileSet, pkg string, fn *ast.FuncDecl, helpers ma
 			t.cur["#"+p.name] = "1"
 		}
 	}
-	for _, s := range fn.Body.List {
+	body := fn.Body.List
+	if t.api {
+		body = normaliseGuard(body)
+	}
+	for _, s := range body {
 		t.stmt(s)
 	}
 	// outputs: written pointer params (in parameter order), then return value
@@ -901,4 +905,33 @@ func sortedKeys(m map[string]bool) []string {
 	}
 	sort.Strings(ks)
 	return ks
+}
+
+// normaliseGuard rewrites the positive form of a nil guard, `if x != nil { S }; return r`, into the form the API
+// mode understands, `if x == nil { return r }; S; return r` (same behaviour: S runs exactly when x is not nil).
+func normaliseGuard(body []ast.Stmt) []ast.Stmt {
+	if len(body) < 2 {
+		return body
+	}
+	last, ok := body[len(body)-1].(*ast.ReturnStmt)
+	if !ok || len(last.Results) != 1 {
+		return body
+	}
+	ifs, ok := body[len(body)-2].(*ast.IfStmt)
+	if !ok || ifs.Init != nil || ifs.Else != nil {
+		return body
+	}
+	be, ok := ifs.Cond.(*ast.BinaryExpr)
+	if !ok || be.Op != token.NEQ {
+		return body
+	}
+	if nl, ok := be.Y.(*ast.Ident); !ok || nl.Name != "nil" {
+		return body
+	}
+	guard := &ast.IfStmt{If: ifs.If, Cond: &ast.BinaryExpr{X: be.X, OpPos: be.OpPos, Op: token.EQL, Y: be.Y},
+		Body: &ast.BlockStmt{Lbrace: ifs.Body.Lbrace, List: []ast.Stmt{last}, Rbrace: ifs.Body.Rbrace}}
+	out := append([]ast.Stmt{}, body[:len(body)-2]...)
+	out = append(out, guard)
+	out = append(out, ifs.Body.List...)
+	return append(out, last)
 }
